@@ -15,8 +15,8 @@ TIER_OPS = [
     # queries / validate: cannot change anything, but C13 must see that they do not
     "find", "timestamps", "getNonEntries", "getValues", "validate", "entries", "eq",
 ]
-LABELS = ["a", "b", "c", "ab", "é"]
-HOSTILE_LABELS = [" a", "b ", " c d ", "\ta", "a\n", ""]
+LABELS = ["a", "b", "c", "ab", "é", "a", "b", "H%"]
+HOSTILE_LABELS = [" a", "b ", " c d ", "\ta", "a\n", "", "\u00a0nb", "wide\u3000", "\u2003em", "ls\u2028", "\x85nel", "\x1fus"]  # padding of every kind str.strip() removes
 
 
 class TierHistory:
@@ -120,7 +120,11 @@ class TierHistory:
             else:
                 ents[i], ents[i + 1] = ents[i + 1], ents[i]
         x = r.random()
-        if x < 0.15:
+        if self.hostile and x > 0.9:
+            # the entries arrive as a one-shot iterable (zip over columns, a generator) - they can be read once
+            cols = list(zip(*ents)) if ents else []
+            ents = (e for e in list(ents)) if r.random() < 0.5 or not cols else zip(*cols)
+        elif x < 0.15:
             ents = [list(e) for e in ents]  # lists instead of tuples
         elif x < 0.30:
             # ready-made namedtuples with float times, as another tier's .entries would hand them over - the label of one of them is
